@@ -40,6 +40,33 @@ type bNested struct {
 	Any any            `json:"any"`
 }
 
+type bRaw struct {
+	ID   int             `json:"id"`
+	Name json.RawMessage `json:"name"`
+	Html json.RawMessage `json:"html"`
+	Raw  json.RawMessage `json:"raw"`
+}
+
+// bReentrant: a destination whose UnmarshalJSON itself binds another key of a store while the
+// outer Bind is still decoding (buffers must not be shared between the two)
+type bReentrant struct {
+	Outer map[string]any
+	Inner bTagged
+}
+
+var reentrantStore = func() *flyt.SharedStore {
+	s := flyt.NewSharedStore()
+	s.Set("inner", map[string]any{"id": 77, "name": "inner-value-that-is-fairly-long-to-fill-a-buffer"})
+	return s
+}()
+
+func (d *bReentrant) UnmarshalJSON(b []byte) error {
+	if err := reentrantStore.Bind("inner", &d.Inner); err != nil {
+		return err
+	}
+	return json.Unmarshal(b, &d.Outer)
+}
+
 func bindValues() []any {
 	one := 1
 	var nilT *bTagged
@@ -64,6 +91,7 @@ func bindValues() []any {
 		&one, nilT, nilM, nilS, make(chan int), func() {}, time.Second, myInt(5), myStr("ms"),
 		json.Number("12"), json.RawMessage(`{"id":5}`), struct{}{}, fmt.Errorf("e"),
 		map[string]any{"deep": map[string]any{"deeper": map[string]any{"deepest": []any{map[string]any{"x": 1}}}}},
+		"a<b>&c", map[string]any{"html": "<script>&amp;</script>", "id": 3}, []string{"<", ">", "&"}, bUntagged{ID: 1, Name: "R&D <x>"},
 	}
 }
 
@@ -125,6 +153,9 @@ func destSpecs() []destSpec {
 		ptrTo("*json.Number", val(json.Number(""), json.Number("1"))),
 		{name: "*error", mk: func(pre bool) any { var e error; return &e }},
 		ptrTo("*struct{}", val(struct{}{}, struct{}{})),
+		ptrTo("*json.RawMessage", val(json.RawMessage(nil), json.RawMessage(`"pre"`))),
+		ptrTo("*bRaw", val(bRaw{}, bRaw{ID: 9, Raw: json.RawMessage(`1`)})),
+		{name: "*bReentrant", mk: func(pre bool) any { return &bReentrant{} }},
 		// hostile destinations
 		{name: "nil", mk: func(bool) any { return nil }},
 		{name: "non-pointer struct", mk: func(bool) any { return bTagged{} }},
@@ -211,10 +242,12 @@ func checkBind(v any, ds destSpec, pre bool) []string {
 		bad("Result.Bind panicked: %v", pv)
 		return pr
 	}
-	// --- store.Bind
+	// --- store.Bind (the key has a history: another value was stored and bound there before)
 	dS := ds.mk(pre)
 	st := flyt.NewSharedStore()
-	st.Set("k", v)
+	st.Set("k", map[string]any{"id": 999, "name": "previous"})
+	try(func() { var scratch bTagged; st.Bind("k", &scratch); var scratch2 any; st.Bind("k", &scratch2) })
+	st.Merge(map[string]any{"k": v})
 	var errS error
 	if p, pv := try(func() { errS = st.Bind("k", dS) }); p {
 		bad("SharedStore.Bind panicked: %v", pv)
